@@ -199,6 +199,7 @@ class Recorder:
         self.real_stream_class = stream_module.Stream
         self.streams, self.log, self.depth = [], [], 0
         self.pending_pages = 0
+        self.gradients = []         # (first log index, end log index, props) of every Gradient.draw
         self.font_events = []       # ('line', h) | ('add', h, key, hash, bitmap, size) | ('tf', h, name, size)
         self.tree_events = []       # ('ctx-begin', props) / ('ctx-end',) / ('leaf-begin', name) / ('leaf-end',) / index
         self.cls = make_logging_class(self)
@@ -278,6 +279,27 @@ def text_lines(font_events):
     return [line for line in lines if line[0]]
 
 
+def gradient_line(recorder, mark):
+    """Protocol line of `docgrad`: the recorded calls with every Gradient.draw replaced by one `grad` item."""
+    from vlib import sx
+    items, pos = [], 0
+    for begin, end, props in recorder.gradients:
+        if props is None or begin < pos:
+            raise ShapeMismatch('Gradient.draw raised or nested')
+        items += [['call', wire_call(c)] for c in recorder.log[pos:begin]]
+        rect, colour = 're', ['srgb', 'i0', 'i0', 'i0', 'i1', 'i0', 'i0', 'i0']
+        if props['solid']:
+            segment = recorder.log[begin:end]
+            if not (len(segment) == 3 and segment[0][2] == 'tok' and segment[1][2] == 'color'):
+                raise ShapeMismatch('solid gradient is not rectangle / set_color / fill')
+            rect, colour = segment[0][4], pdfstream.colour_wire(segment[1][3])
+        items.append(['grad', props['h'], props['solid'], props['translucent'], pdfstream.num(props['scale_y']),
+                      rect, colour])
+        pos = end
+    items += [['call', wire_call(c)] for c in recorder.log[pos:]]
+    return sx.line('docgrad', mark, *items)
+
+
 def wire_call(call):
     if call[0] == 'newpage':
         return ['newpage']
@@ -336,6 +358,24 @@ def recording():
             finally:
                 recorder.tree_events.append(('leaf-end',))
         setattr(draw_module, name, leaf)
+    # Gradient.draw: its calls are predicted by Model/GradientDraw from what it reads of `self.layout(...)`
+    import weasyprint.images as images_module
+    real_gradient_draw = images_module.Gradient.draw
+    saved[(images_module.Gradient, 'draw')] = real_gradient_draw
+
+    def gradient_draw(self, stream, concrete_width, concrete_height, image_rendering):
+        begin = len(recorder.log)
+        try:
+            scale_y, type_, _points, _positions, colors = self.layout(concrete_width, concrete_height)
+            props = {'h': recorder.handle(stream), 'solid': type_ == 'solid',
+                     'translucent': any(color[3] != 1 for color in colors), 'scale_y': scale_y}
+        except Exception:  # noqa: BLE001 - the real call below raises the same way
+            props = None
+        try:
+            return real_gradient_draw(self, stream, concrete_width, concrete_height, image_rendering)
+        finally:
+            recorder.gradients.append((begin, len(recorder.log), props))
+    images_module.Gradient.draw = gradient_draw
     try:
         yield recorder
     finally:
